@@ -368,7 +368,7 @@ Decls(e) == CASE e.n = "decl" -> LvNames(e.x)
               [] e.n = "struct" -> <<e.nm>> \o e.fs
               [] e.n = "seq" -> DeclsSeq(e.es, 1, <<>>)
               [] e.n = "if" -> Decls(e.a) \o (IF e.b.n = "none" THEN <<>> ELSE Decls(e.b))
-              [] e.n = "try" -> Decls(e.b)
+              [] e.n \in {"try", "tryp"} -> Decls(e.b)
               [] e.n = "switch" -> Decls(e.e)
               [] OTHER -> <<>>
 
@@ -469,6 +469,11 @@ Frz(st, env, e, b) ==
                         IN IF x.ok /\ h.ok THEN FzOk([e EXCEPT !.b = x.e, !.h = h.e]) ELSE FzFail
       [] e.n = "switch" -> LET x == Frz(st, env, e.e, b)  a == FrzArms(st, env, e.arms, 1, b \o Decls(e.e), <<>>)
                            IN IF x.ok /\ a.ok THEN FzOk([e EXCEPT !.e = x.e, !.arms = a.arms]) ELSE FzFail
+      \* try with a catch PATTERN: the pattern's expressions see the body's declarations, the handler
+      \* also the pattern's names (like a switch arm)
+      [] e.n = "tryp" -> LET x == Frz(st, env, e.b, b)
+                             a == FrzArms(st, env, <<[p |-> e.p, b |-> e.h]>>, 1, b \o Decls(e.b), <<>>)
+                         IN IF x.ok /\ a.ok THEN FzOk([e EXCEPT !.b = x.e, !.p = a.arms[1].p, !.h = a.arms[1].b]) ELSE FzFail
       \* an operator chain: the operators are free variables like any other, and the value an operator
       \* name resolves to carries its precedence - so the grouping is fixed when the chain is frozen
       [] e.n = "chain" -> LET f == FrzList(st, env, <<e.a, e.b, e.c>>, 1, b, <<>>, FALSE)
@@ -884,6 +889,18 @@ Ev(st, env, e) ==
                ELSE LET st1 == NewEnv(r.st, env)  \* the catch clause opens one
                         b == DeclVar(st1, LastEnv(st1), e.x, r.v)
                     IN Ev(b.st, LastEnv(st1), e.h)
+      [] e.n = "tryp" ->
+            \* catch with a pattern: evaluated and matched in the clause's fresh scope; a handler whose
+            \* pattern does not match is skipped and the ORIGINAL thrown value travels on
+            LET r == Ev(st, env, e.b)
+            IN IF r.k # "thr" THEN r
+               ELSE LET st1 == NewEnv(r.st, env)
+                        ee == LastEnv(st1)
+                        rp == EvLv(st1, ee, e.p)
+                    IN IF ~IsVal(rp) THEN rp
+                       ELSE LET m == BindLv(rp.st, ee, rp.v, r.v)
+                            IN IF m.ok THEN Ev(m.st, ee, e.h)
+                               ELSE [st |-> m.st, k |-> "thr", v |-> r.v, lv |-> r.lv, hv |-> r.hv]
       [] e.n \in {"chain", "chainf"} ->
             \* a o1 b o2 c: operands left to right, then the tighter operator first (ties: the left one)
             LET ra == Ev(st, env, e.a)
